@@ -14,6 +14,7 @@ from gv.astutil import param_names
 from gv.astutil import stmts_of
 from gv.astutil import walk_body
 from gv.cfg import cfg_of
+from gv.props.shared import unfolded
 from gv.effects import local_aliases
 from gv.props import describe
 from gv.props.shared import branch_conditions
@@ -87,12 +88,20 @@ def check_execute(ctx: Ctx) -> None:
     if ok:
         ln = cfg.node_of(look[0])
         ok = cfg.dominates(ln, rn) or cfg.must_pass(cfg.entry, {ln} | cache_false, rn)
-        ok = ok and not cfg.reachable(rn, ln) and any(cfg.under_branch(ln, n, cache_side(n)) for n in cfg.nodes(is_cache_test))
+        nested = any(cfg.under_branch(ln, n, cache_side(n)) for n in cfg.nodes(is_cache_test))
+        if not nested and cfg.kind[ln] == "test":
+            # `if self.cache is not None and self.__can_load_cache(x):` -- the conjunction short-circuits
+            lits_ = conj_literals(cfg.ast[ln].test)
+            pos = [i for i, (p_, e_) in enumerate(lits_) if (p_ and norm_stmt(e_) in ("self.cache is not None", "self.cache")) or (not p_ and norm_stmt(e_) == "self.cache is None")]
+            at = [i for i, (p_, e_) in enumerate(lits_) if any(sub is look[0] for sub in ast.walk(e_))]
+            nested = bool(pos) and bool(at) and min(pos) < min(at) and isinstance(cfg.ast[ln].test, ast.BoolOp) and isinstance(cfg.ast[ln].test.op, ast.And)
+        ok = ok and not cfg.reachable(rn, ln) and nested
         ctx.ob("5.1-lookup-first", con, ok, "a path with a cache reaches the run without having looked the inputs up", node=look[0], stmt="every cached path passes the lookup before the run")
         hit = cfg.branch[(ln, True)]
         ok = not cfg.reachable(hit, rn) and cfg.reachable(hit, cfg.exit)
         ctx.ob("5.1-hit-returns", con, ok, "on a cache hit the discipline body must not run", node=look[0], stmt="hit path returns without _execute_monitored")
-        ok = look[0].args and dotted(look[0].args[0]) == "input_data"
+        alts_ = (unfolded(f, look[0].args[0]) or [look[0].args[0]]) if look[0].args else []
+        ok = bool(alts_) and all(isinstance(a_, ast.Call) and last_attr(a_) == "prepare_input_data" for a_ in alts_)
         ctx.ob("5.1-lookup-first", con, bool(ok), "the lookup must use the prepared input data", node=look[0], stmt="lookup(input_data)")
     # pristine copy
     pc = [s for s in stmts_of(f) if isinstance(s, ast.Assign) and isinstance(s.value, ast.Call) and last_attr(s.value) in ("__create_input_data_for_cache", "_BaseDiscipline__create_input_data_for_cache")]
@@ -105,7 +114,8 @@ def check_execute(ctx: Ctx) -> None:
         pn = cfg.node_of(pc[0])
         ok = cfg.reachable(pn, inn) and not cfg.reachable(inn, pn) and not cfg.reachable(rn, pn) and cfg.must_pass(cfg.entry, {pn} | cache_false | ({cfg.branch[(cfg.node_of(look[0]), True)]} if look else set()), inn)
         ctx.ob("5.1-pristine", con, ok, "the copy of the inputs kept for the cache must be taken before io.initialize/the run can change them (in-place modified or self-coupled inputs would otherwise be stored)", node=pc[0])
-        ok = pc[0].value.args and dotted(pc[0].value.args[0]) == "input_data"
+        alts_ = (unfolded(f, pc[0].value.args[0]) or [pc[0].value.args[0]]) if pc[0].value.args else []
+        ok = bool(alts_) and all(isinstance(a_, ast.Call) and last_attr(a_) == "prepare_input_data" for a_ in alts_)
         ctx.ob("5.1-pristine", con, bool(ok), "the pristine copy must be made from the prepared input data", node=pc[0], stmt="copy of input_data")
     st = rules.self_calls(f, "_store_cache")
     ctx.ob("5.1-store-after-run", con, len(st) == 1, "after the run the outputs must be stored in the cache", node=(st or [f])[0], stmt="store present")
@@ -168,7 +178,7 @@ def check_copies(ctx: Ctx) -> None:
             for s, attr, value in _stored_from_params(cls.name, f):
                 # names/sizes of the mapping (``param.keys()``, ``len(param)``) do not alias arrays
                 benign = {id(a.value) for a in ast.walk(value) if isinstance(a, ast.Attribute) and a.attr == "keys"}
-                benign |= {id(c.args[0]) for c in ast.walk(value) if isinstance(c, ast.Call) and dotted(c.func) == "len" and c.args}
+                benign |= {id(c.args[0]) for c in ast.walk(value) if isinstance(c, ast.Call) and dotted(c.func) in ("len", "sorted", "list", "tuple", "set", "frozenset") and len(c.args) == 1}
                 used = [x for x in ast.walk(value) if isinstance(x, ast.Name) and x.id in params and id(x) not in benign]
                 if not used:
                     continue
@@ -179,6 +189,15 @@ def check_copies(ctx: Ctx) -> None:
                 ok = True
                 for u in used:
                     wrapped = any(isinstance(c, ast.Call) and last_attr(c) in DEEP_COPIES and c.args and c.args[0] is u for c in ast.walk(value))
+                    if not wrapped and mname != "cache_jacobian":
+                        # element-wise copy of a FLAT mapping of arrays: {k: v.copy() for k, v in param.items()}
+                        for dc in ast.walk(value):
+                            if isinstance(dc, ast.DictComp) and len(dc.generators) == 1 and not dc.generators[0].ifs:
+                                g_ = dc.generators[0]
+                                if isinstance(g_.iter, ast.Call) and isinstance(g_.iter.func, ast.Attribute) and g_.iter.func.attr == "items" and g_.iter.func.value is u and isinstance(g_.target, ast.Tuple) and len(g_.target.elts) == 2:
+                                    vname = dotted(g_.target.elts[1])
+                                    v_ = dc.value
+                                    wrapped = isinstance(v_, ast.Call) and ((isinstance(v_.func, ast.Attribute) and v_.func.attr == "copy" and dotted(v_.func.value) == vname) or (last_attr(v_) in ("deepcopy", "array", "np_array") and v_.args and dotted(v_.args[0]) == vname))
                     ok = ok and wrapped
                 ctx.ob("5.2-deep-copy", con, ok, f"{cls.name}.{mname} keeps `{norm_stmt(value, 50)}` in {attr} without a deep array copy: when the caller later modifies its arrays in place the cached entry changes with them (wrong hits with a tolerance, lost hits without)", node=s)
     ctx.floor("5.2-deep-copy", 4)
@@ -240,14 +259,15 @@ def check_simple_cache(ctx: Ctx) -> None:
     g = ctx.index.method(SCF, "SimpleCache", "__getitem__")
     cfg = cfg_of(g)
     rets = [s for s in stmts_of(g) if isinstance(s, ast.Return)]
-    le = [r for r in rets if (dotted(r.value) or "").endswith("last_entry")]
-    ok = len(le) == 1
-    if ok:
+    # the returns that serve what is stored: through last_entry, or by reading the stored outputs / Jacobian directly
+    le = [r for r in rets if r.value is not None and any(isinstance(n_, ast.Attribute) and (n_.attr == "last_entry" or n_.attr.endswith(("__outputs", "__jacobian"))) for n_ in ast.walk(r.value))]
+    ok = len(le) >= 1
+    for r in le:
         lits = []
-        for t, v in branch_conditions(cfg, cfg.node_of(le[0])):
+        for t, v in branch_conditions(cfg, cfg.node_of(r)):
             cl = conj_literals(cfg.ast[t].test)
             lits += cl if v else ([(not cl[0][0], cl[0][1])] if len(cl) == 1 else [])
-        ok = any(p and isinstance(e, ast.Call) and last_attr(e).endswith("__is_cached") for p, e in lits)
+        ok = ok and any(p and isinstance(e, ast.Call) and last_attr(e).endswith("__is_cached") for p, e in lits)
     ctx.ob("5.4-compare", cname(SCF, "SimpleCache", "__getitem__"), ok, "the stored entry may only be served when the inputs are cached", node=(le or [g])[0])
 
 
@@ -339,12 +359,21 @@ def check_jacobian_flag(ctx: Ctx) -> None:
     ok = len(ex) == 1 and all(cfg2.reachable(cfg2.node_of(ex[0]), cfg2.node_of(r)) for r, _ in held)
     ctx.ob("5.5-flag-guard", con2, ok, "linearize must (re-)execute before trusting the flag", node=(ex or [g])[0], stmt="execute before the flag test")
     cj = [c for c in walk_body(g) if isinstance(c, ast.Call) and last_attr(c) == "cache_jacobian"]
-    ok = len(cj) == 1 and dotted(cj[0].args[0]) == "input_data" and dotted(cj[0].args[1]) == "self.jac" and cfg2.reachable(cn, cfg2.node_of(cj[0]))
+    ok = len(cj) == 1 and len(cj[0].args) >= 2
+    if ok:
+        # the inputs given to the cache are the prepared inputs the Jacobian was computed at
+        alts_ = unfolded(g, cj[0].args[0]) or [cj[0].args[0]]
+        ok = all(isinstance(a_, ast.Call) and last_attr(a_) == "prepare_input_data" for a_ in alts_) and dotted(cj[0].args[1]) == "self.jac" and cfg2.reachable(cn, cfg2.node_of(cj[0]))
     ctx.ob("5.5-jacobian-cached", con2, ok, "a computed Jacobian must be cached with the inputs it was computed at", node=(cj or [g])[0])
     # Discipline._set_data_from_cache
     s = ctx.index.method(DI, "Discipline", "_set_data_from_cache")
     jac_sets = [x for x in stmts_of(s) if isinstance(x, ast.Assign) and dotted(x.targets[0]) == "self.jac"]
     ok = len(jac_sets) == 2 and any(dotted(x.value) == "cache_entry.jacobian" for x in jac_sets) and any(isinstance(x.value, ast.Dict) for x in jac_sets)
+    if not ok and len(jac_sets) == 1:
+        # `self.jac = cache_entry.jacobian or {}` / `... if cache_entry.jacobian else {}`
+        v_ = jac_sets[0].value
+        parts = v_.values if isinstance(v_, ast.BoolOp) and isinstance(v_.op, ast.Or) else ([v_.body, v_.orelse] if isinstance(v_, ast.IfExp) else [])
+        ok = len(parts) == 2 and any(dotted(x) == "cache_entry.jacobian" for x in parts) and any(isinstance(x, ast.Dict) and not x.keys for x in parts)
     ctx.ob("5.5-restore", cname(DI, "Discipline", "_set_data_from_cache"), ok, "restoring from the cache must install the cached Jacobian or an empty one (never keep the previous Jacobian)", node=(jac_sets or [s])[0])
 
 
